@@ -48,9 +48,9 @@ def oracle_hits(cases):
             lc = last_cache(spec)
             fields = [op['fields']] if isinstance(op['fields'], str) else list(op['fields'])
             ok_res = 'val' in ob['res']
-            if lc is not None and not has_byvalue(spec) and all(covers(lc, f) for f in fields):
+            if lc is not None and not has_byvalue(spec):
                 unbounded = lc['t'] in ('disk', 'columns') or lc.get('size') is None
-                if unbounded and not ob['bad'] and prev is not None and prev[0] == (op['variant'], op['fields'], repr(op['key'])) and prev[1] and ok_res:
+                if unbounded and all(covers(lc, f) for f in fields) and not ob['bad'] and prev is not None and prev[0] == (op['variant'], op['fields'], repr(op['key'])) and prev[1] and ok_res:
                     n += 1
                     if ob['log']:
                         viol.append({'signature': 'oracle:hit-ran-user-functions', 'case': histcorr._slim(c), 'observed': [x[0] for x in ob['log']],
@@ -59,6 +59,8 @@ def oracle_hits(cases):
                 if lc['t'] == 'ram' and lc.get('size') is not None:
                     kk = repr(op['key'])
                     for f in fields:
+                        if not covers(lc, f):
+                            continue          # this field does not go through the cache; the others of the same request do
                         key = (op['variant'], builds[op['variant']], f)
                         rec = recency.get(key, [])
                         if len(fields) == 1 and kk in rec[:lc['size']] and ok_res and not ob['bad']:
